@@ -216,7 +216,7 @@ def body(ctx, conv, shape, bounds, layout, nan_cells=None, mesh_opts=None, mode=
             ctx.check(not ctx.symbolic, 'vector components with a leftover dimension of length one are refused')
 
 
-def body_animate(ctx, conv):
+def body_animate(ctx, conv, offset=0.0):
     """The animated collection (plot.animate_on_figure) shares the guarantees: one patch per cell with geometry, each
     frame pairs every patch with its own cell's value, default colour limits span exactly the plotted values of all
     frames.  Concrete data (real matplotlib artists are needed), with out-of-range values stored in the hole cells."""
@@ -233,7 +233,8 @@ def body_animate(ctx, conv):
     for (j, i) in holes:
         lonb[j, i] = numpy.nan
         latb[j, i] = numpy.nan
-    vals = numpy.arange(nt * ny * nx, dtype=float).reshape(nt, ny, nx) * 1.5 + 3.0
+    # (offset: values the size of epoch seconds - neighbouring cells differ in the tenth significant digit)
+    vals = numpy.arange(nt * ny * nx, dtype=float).reshape(nt, ny, nx) * 1.5 + 3.0 + offset
     for (j, i) in holes:
         vals[:, j, i] = [-999.0, 999.0, 12345.0]         # sentinel values the model left in cells that are never drawn
     build = builders.cf2d if conv == 'cf2d' else builders.shoc_simple
@@ -266,6 +267,7 @@ def cases(tier):
     q = tier == 'quick'
     for conv in ('cf2d', 'shoc_simple'):
         yield Case(f'animate:{conv}', body_animate, dict(conv=conv), max_paths=3)
+    yield Case('animate:cf2d:large-magnitude', body_animate, dict(conv='cf2d', offset=1.7e9), max_paths=3)
     cfgs = [('cf1d', (2, 3), 'none', ()), ('cf2d', (2, 2), 'stored', None), ('shoc_standard', (1, 2), 'none', None), ('shoc_simple', (2, 2), 'none', ((0, 0), (1, 1)))]
     if not q:
         cfgs += [('cf2d', (2, 3), 'stored', ((0, 1), (1, 2), (1, 0))), ('shoc_standard', (2, 2), 'none', ((0, 0), (1, 1), (2, 2))), ('cf1d', (3, 2), 'stored', ())]
